@@ -493,7 +493,7 @@ func libFamilies(tier string) []*core.Family {
 		return res
 	}
 	fam := &core.Family{
-		Name: name, Size: nt * uint64(len(getLibFns())), HangSeconds: 120, BudgetSeconds: budget,
+		Name: name, Size: nt * uint64(len(getLibFns())), HangSeconds: 3600, BudgetSeconds: budget,
 		Show: func(i uint64) string {
 			f, tp := decode(i)
 			return fmt.Sprintf("pcall(%s, %s) in {cpu=1e6, memory=64MB}", f.path, tupleLabel(tp))
@@ -503,7 +503,7 @@ func libFamilies(tier string) []*core.Family {
 			if skip(f, tp) {
 				return core.Outcome{Skipped: true}
 			}
-			r := remote(name, i, 20*time.Second)
+			r := remote(name, i, 30*time.Second)
 			label := fmt.Sprintf("fn=%s args=%s", f.path, tupleLabel(tp))
 			out := judge(name, label, true, r, nil, true)
 			cls := r.Status
